@@ -77,6 +77,37 @@ fn main() {
             _ => usage(),
         }
     }
+    // supervision: the exploration runs in a child of this process under a virtual-memory limit;
+    // a change to the library that makes some emitted program (or the library itself) grow without
+    // bound must end as a reported violation, not as a check killed by the kernel
+    if !inner && replay.is_none() && std::env::var("FPVERIF_SUPERVISED").is_err() {
+        let t0 = std::time::Instant::now();
+        let exe = std::env::current_exe().unwrap_or_else(|_| "fpverif".into());
+        let status = std::process::Command::new("sh")
+            .arg("-c")
+            .arg("ulimit -v 50331648 2>/dev/null; exec \"$0\" \"$@\"")
+            .arg(&exe)
+            .args(&args)
+            .env("FPVERIF_SUPERVISED", "1")
+            .status();
+        let code = match status {
+            Ok(s) => match s.code() {
+                Some(c @ 0..=2) => c,
+                other => speclib::report::emergency(
+                    &id,
+                    tier,
+                    "check-process-died",
+                    &format!("the process exploring this property died ({}): out of memory (limit 48 GiB), abort or stack exhaustion while the library or one of its emitted programs was being run", match other { Some(c) => format!("exit code {c}"), None => format!("{s}") }),
+                    t0.elapsed().as_secs_f64(),
+                ),
+            },
+            Err(e) => {
+                println!("MACHINERY-ERROR cannot start the supervised child: {e}");
+                2
+            }
+        };
+        std::process::exit(code);
+    }
     let ctx = Ctx::new(&id, tier);
     *speclib::report::BOUND_ADDENDUM.lock().unwrap() = props::bound_addendum(&id).to_string();
     if replay.is_none() {
